@@ -11,6 +11,7 @@ import EaselModel.Stats.MinCounter
 import EaselModel.Stats.MinTrace
 import EaselModel.Stats.MinDescent
 import EaselModel.Stats.WeibullReal
+import EaselModel.Stats.WeiBinnedReal
 import EaselModel.Stats.TevdReal
 import EaselModel.Stats.ExpBinnedReal
 import EaselModel.Stats.HistExpectReal
@@ -655,5 +656,62 @@ theorem cg_fit_location_is_minimum (xs : Array ℝ) (hn : 0 < xs.size) : vmin xs
   unfold vmin minOf
   rw [← Array.foldl_toList]
   exact ⟨h3.elim (fun e => by rw [e]; exact hx0) id, h2⟩
+
+/-! ## round 6: stretched exponential and the binned Weibull objective -/
+
+/-- `sxp_complete_func` (the objective `esl_sxp_FitComplete` hands to the optimiser) over ℝ, data `≥ mu`: minus the stretched-exponential
+    log-likelihood `n(log λ + log τ - logΓ(1/τ)) - Σ (λ(xᵢ-μ))^τ` of ALL `n` samples, in `w = p[0] = log λ`, `τ = exp p[1]`, with the code's own
+    `esl_stats_LogGamma` as `logΓ` (samples equal to `mu` contribute the normaliser only). -/
+theorem sxp_objective_is_neg_loglik (xs : Array ℝ) (mu w v : ℝ) (hmu : ∀ x ∈ xs.toList, mu ≤ x) :
+    sxpFunc xs mu #[w, v] = -(llSxp (logGamma (1 / Real.exp v)) (xs.size : ℝ)
+        ((xs.toList.filter (fun x => decide (x ≠ mu))).map (fun x => Real.log (x - mu))) w (Real.exp v)) :=
+  sxpFunc_eq xs mu w v hmu
+
+example : ∀ x ∈ (#[(1 : ℝ), 2, 4] : Array ℝ).toList, (1 : ℝ) ≤ x := by
+  intro x hx; simp at hx; rcases hx with rfl | rfl | rfl <;> norm_num
+
+/-- **Stretched exponential, shape in `λ`** (any data, any shape `τ`, any normaliser): `llSxpDw` is `∂/∂ log λ` of the log-likelihood; the
+    log-likelihood lies below each of its tangents in `log λ` (concave), so the shortfall in `λ` of ANY point is bounded by the derivative
+    there; a rate where the derivative vanishes is a global maximiser in `λ`, and the only one when a sample lies above `μ` and `τ ≠ 0`. -/
+theorem sxp_rate_is_maximiser (lg n : ℝ) (ls : List ℝ) (w tau : ℝ) :
+    HasDerivAt (fun w => llSxp lg n ls w tau) (llSxpDw n ls w tau) w ∧
+    (∀ w' : ℝ, llSxp lg n ls w' tau ≤ llSxp lg n ls w tau + llSxpDw n ls w tau * (w' - w)) ∧
+    (llSxpDw n ls w tau = 0 → ∀ w' : ℝ, llSxp lg n ls w' tau ≤ llSxp lg n ls w tau) ∧
+    (llSxpDw n ls w tau = 0 → ls ≠ [] → tau ≠ 0 → ∀ w' : ℝ, w' ≠ w → llSxp lg n ls w' tau < llSxp lg n ls w tau) :=
+  ⟨llSxp_hasDerivAt_w lg n ls w tau, fun w' => llSxp_below_tangent_w lg n ls w tau w', fun hst w' => llSxp_rate_max lg n ls w tau hst w',
+   fun hst hls ht w' hw => llSxp_rate_unique lg n ls hls w tau ht hst w' hw⟩
+
+/-- **…and that rate in closed form**: `λ^τ = n / (τ Σ (xᵢ-μ)^τ)` (`n > 0`, `τ > 0`, a sample above `μ`) is the stationary — hence, by
+    `sxp_rate_is_maximiser`, THE maximising — rate for the shape `τ`. -/
+theorem sxp_rate_closed_form (n : ℝ) (ls : List ℝ) (tau : ℝ) (hn : 0 < n) (ht : 0 < tau)
+    (hS : 0 < (ls.map (fun l => Real.exp (tau * l))).sum) :
+    llSxpDw n ls (Real.log (n / (tau * (ls.map (fun l => Real.exp (tau * l))).sum)) / tau) tau = 0 :=
+  llSxp_rate_closed_form n ls tau hn ht hS
+
+example : (0 : ℝ) < 2 ∧ (0 : ℝ) < 1 ∧ 0 < (([(0 : ℝ), 1]).map (fun l => Real.exp (1 * l))).sum := by
+  refine ⟨by norm_num, by norm_num, ?_⟩
+  simp only [List.map_cons, List.map_nil, List.sum_cons, List.sum_nil]
+  have := Real.exp_pos (1 * 0); have := Real.exp_pos (1 * 1); linarith
+
+/-- **`wei_binned_func` (objective of `esl_wei_FitCompleteBinned`) = `-Σ_b obs[b]·log(F(ub_b) - F(max(lb_b, μ)))`** over ℝ, `F = esl_wei_cdf`
+    at `(μ, λ = e^w, τ = e^v)`: minus the multinomial log-likelihood of the binned counts, for any histogram, bin list, `μ`, `w`, `v`, provided
+    every occupied bin has positive probability (otherwise the code answers `eslINFINITY`). -/
+theorem weibull_binned_objective_is_neg_loglik (h : Hist ℝ) (bins : List (Int × Nat)) (mu w v : ℝ)
+    (hpos : ∀ ic ∈ bins, ic.2 ≠ 0 → 0 < weiBinProb h mu (Real.exp w) (Real.exp v) ic.1) :
+    weiBinnedFunc h bins mu #[w, v] = -(llWeiBinned h bins mu (Real.exp w) (Real.exp v)) :=
+  weiBinnedFunc_eq h bins mu w v hpos
+
+/-- non-vacuity: a bin list without occupied bins satisfies the hypothesis for every histogram (and the objective is then `0`) -/
+example (h : Hist ℝ) : ∀ ic ∈ [((3 : Int), (0 : Nat))], ic.2 ≠ 0 → 0 < weiBinProb h 0 (Real.exp 0) (Real.exp 0) ic.1 := by
+  intro ic hic h0; simp at hic; subst hic; exact absurd rfl h0
+
+/-- `esl_wei_cdf` over ℝ is the Weibull distribution function: `0` at and below `μ`; above, `1 - exp(-(λ(x-μ))^τ)` (written with
+    `(λ(x-μ))^τ = exp(τ(log λ + log(x-μ)))`) outside the small-argument branch, and the first-order term `(λ(x-μ))^τ` inside it. -/
+theorem weibull_cdf_is_distribution_function (x mu w tau : ℝ) :
+    weiCdf x mu (Real.exp w) tau =
+      if x ≤ mu then 0
+      else if Real.exp (tau * (w + Real.log (x - mu))) < 5e-9 then Real.exp (tau * (w + Real.log (x - mu)))
+      else 1 - Real.exp (-(Real.exp (tau * (w + Real.log (x - mu))))) :=
+  weiCdf_r x mu w tau
 
 end EaselModel.Props.C11
